@@ -380,6 +380,7 @@ type hsLibResult struct {
 	err      error
 	elapsed  time.Duration
 	returned bool
+	at       time.Time     // when newSession returned
 	maxLate  time.Duration // lateness of this goroutine's own timer wake-ups while it waited
 }
 
@@ -411,7 +412,8 @@ func hsStartLib(conf *Config, conn net.Conn, isClient bool) <-chan hsLibResult {
 	go func() {
 		t0 := time.Now()
 		s, err := newSession(conf, conn, isClient)
-		ch <- hsLibResult{sess: s, err: err, elapsed: time.Since(t0)}
+		now := time.Now()
+		ch <- hsLibResult{sess: s, err: err, elapsed: now.Sub(t0), at: now}
 	}()
 	return ch
 }
@@ -632,12 +634,14 @@ func hsRunRawCase(c *checkCtx, cs hsCase, st *hsStats, noise bool) {
 	}
 	failedAt, serr := raw.runScript(steps, 0, cs.Step, hsWatchdog, delay)
 	var downgradeHdr *rawRecv
+	var faultAt time.Time
 	if serr != nil {
 		witness["raw_script_error"] = serr.Error()
 		witness["raw_failed_at"] = failedAt
 	} else {
 		reached = true
 		delay()
+		faultAt = time.Now()
 		switch cs.Fault {
 		case "stall", "badpath":
 			// nothing more is sent; the connection stays open
@@ -690,6 +694,12 @@ func hsRunRawCase(c *checkCtx, cs hsCase, st *hsStats, noise bool) {
 	}
 	witness["hook_points_hit"] = hits.list()
 	st.addHooks(cs.Judged, hits.list())
+	if reached && to == hsInitTO && r.sess == nil && r.at.Before(faultAt) {
+		// the judged end's timer fired while the exchange was still on its way to the fault step (machine too slow for the
+		// short InitializeTimeout): that is not the scenario of this case, and a worker that outlives its time-out is Q3
+		c.inconclusiveCase(cs.name(), fmt.Sprintf("InitializeTimeout %v fired %v before the raw peer reached the fault step", to, faultAt.Sub(r.at)))
+		return
+	}
 	j.judgeReturn(r)
 	if !reached {
 		c.count("raw_fault_step_not_reached", 1)
@@ -842,6 +852,7 @@ func hsChildEnd(args []string) {
 		}
 	})
 	k.install()
+	childReply(hsChildMsg{Ev: "ready"})
 	t0 := time.Now()
 	sess, err := newSession(conf, conn, a.Role == "client")
 	el := time.Since(t0)
@@ -1067,13 +1078,19 @@ func hsRunLibCase(c *checkCtx, cs hsCase, st *hsStats, noise bool) {
 	witness := map[string]interface{}{"case": cs, "prefix": prefix, "initialize_timeout_ms": to.Milliseconds()}
 	j := &hsJudge{c: c, cs: cs, st: st, witness: witness, to: to, maySucceed: maySucceed, whySucceed: whySucceed}
 
-	resCh := hsStartLib(conf, h.conn, yIsClient)
 	var seen []hsChildMsg
+	if _, ok := h.expect("ready", 30*time.Second, &seen); !ok {
+		h.conn.Close()
+		c.inconclusiveCase(cs.name(), fmt.Sprintf("the child did not get ready (messages %v)", seen))
+		return
+	}
+	resCh := hsStartLib(conf, h.conn, yIsClient)
 	want := "die"
 	if cs.Fault == "stall-lib" {
 		want = "stalled"
 	}
 	m, ok := h.expect(want, hsWatchdog, &seen)
+	faultAt := time.Now()
 	witness["child_messages"] = seen
 	reached := ok && m.Step == cs.Step
 	if !reached {
@@ -1103,6 +1120,11 @@ func hsRunLibCase(c *checkCtx, cs hsCase, st *hsStats, noise bool) {
 	}
 	witness["hook_points_hit"] = hits.list()
 	st.addHooks(cs.Judged, hits.list())
+	if to == hsInitTO && r.sess == nil && r.at.Before(faultAt.Add(-50*time.Millisecond)) {
+		// see hsRunRawCase: the short timer fired before the peer got to the hook point (the 50 ms allow for the pipe)
+		c.inconclusiveCase(cs.name(), fmt.Sprintf("InitializeTimeout %v fired %v before the child reported hook point %d", to, faultAt.Sub(r.at), cs.Step))
+		return
+	}
 	j.judgeReturn(r)
 	c.nontrivial(cs.key())
 	c.count("lib_fault_cases_reached", 1)
@@ -1113,13 +1135,24 @@ func hsRunLibCase(c *checkCtx, cs hsCase, st *hsStats, noise bool) {
 		c.count("judged_end_returned_session_legally", 1)
 		if cs.Fault == "stall-lib" {
 			// the stalled end gives up by its own time-out, drops the connection (descriptor finalizer) and reports
-			_, okRes := h.expect("census", hsWatchdog+hsCensusWait, &seen)
+			cm, okRes := h.expect("census", hsWatchdog+hsCensusWait, &seen)
 			witness["child_messages"] = seen
 			if !okRes {
 				c.inconclusiveCase(cs.name(), "the stalled child did not report its result")
 			}
-			h.stop() // and the process goes away
-			h.cp = nil
+			connGone := okRes
+			for _, l := range cm.Left {
+				if strings.Contains(l, "connection") {
+					connGone = false
+				}
+			}
+			if connGone {
+				// the peer has failed and dropped the connection but its process lives on: that must be enough
+				c.count("peer_failed_but_process_alive_when_session_end_was_judged", 1)
+			} else {
+				h.stop() // the process goes away
+				h.cp = nil
+			}
 		}
 		if j.maySucceed {
 			j.judgeSessionEnds(r.sess)
